@@ -298,6 +298,139 @@ def bind_call_args(callee, call):
     return out
 
 
+def bind_call_varargs(callee, call):
+    """(parameter name -> argument AST, [ASTs that land in the callee's *vararg]) for a call of `callee`; a trailing
+    `*x` of the call stays an ast.Starred in the list.  None when the call cannot be bound."""
+    a_ = callee.node.args
+    ps = [x.arg for x in getattr(a_, "posonlyargs", [])] + [x.arg for x in a_.args]
+    if ps and ps[0] in ("self", "cls"):
+        ps = ps[1:]
+    va = a_.vararg
+    named, extra = {}, []
+    for i, a in enumerate(call.args):
+        if isinstance(a, ast.Starred):
+            if i < len(ps) or i != len(call.args) - 1 or va is None:
+                return None
+            extra.append(a)
+        elif i < len(ps):
+            named[ps[i]] = a
+        elif va is not None:
+            extra.append(a)
+        else:
+            return None
+    for kw in call.keywords:
+        if kw.arg is None:
+            return None
+        named[kw.arg] = kw.value
+    return named, extra
+
+
+class EffCall:
+    """One call of a bucket-writer method: meth (str), recv / args (ASTs in the terms of the outermost function),
+    chain [(FuncInfo, call AST, {name of that function -> outer AST})] from the outermost function to the call."""
+
+    def __init__(self, meth, recv, args, chain, kws=None):
+        self.meth, self.recv, self.args, self.chain, self.kws = meth, recv, args, chain, dict(kws or {})
+
+
+class UnresolvedMethodName(AnalysisError):
+    pass
+
+
+def shareholder_calls(idx, cls, fn, env=None, extra=None, depth=3, nested=True, free=None):
+    """The calls `fn` (a method of `cls`) makes on another object by method name: directly (`<recv>.<meth>(args)`), or
+    through helper methods of `cls` that are handed the method - `getattr(<recv>, <name>)(*args)` with the name a
+    constant string bound at the call site (possibly passed on through several helpers), or a bound method
+    `<recv>.<meth>` handed to a helper that calls it.  Only calls whose callee is an attribute of a non-self receiver
+    are reported.  A method name that is neither a constant nor a parameter raises UnresolvedMethodName."""
+    sym = Sym(idx, fn)
+    if free is None:
+        # names of the outermost function: a method name that is still one of its parameters makes that function a
+        # helper itself - its call sites are what binds the name
+        free = set(fn.params) | ({fn.node.args.vararg.arg} if fn.node.args.vararg is not None else set())
+    env = dict(env or {})
+    va = fn.node.args.vararg.arg if fn.node.args.vararg is not None else None
+    out = []
+    calls = list(calls_in_func(fn, None, into_lambda=True))
+
+    def node_for(c):
+        try:
+            return node_of(fn, c)
+        except AnalysisError:
+            return None
+
+    def outer(n, e):
+        e2 = sym.expand(n, e) if n is not None else e
+        return subst_names(e2, env)
+
+    def outer_args(n, args):
+        res = []
+        for a in args:
+            if isinstance(a, ast.Starred):
+                if isinstance(a.value, ast.Name) and a.value.id == va and extra is not None:
+                    res.extend(extra)
+                else:
+                    res.append(a)
+            else:
+                res.append(outer(n, a))
+        return res
+
+    def outer_kws(n, c):
+        return {k_.arg if k_.arg is not None else "**": outer(n, k_.value) for k_ in c.keywords}
+
+    def alternatives(f):
+        if isinstance(f, ast.IfExp):
+            return alternatives(f.body) + alternatives(f.orelse)
+        return [f]
+
+    for c, f in [(c_, f_) for c_ in calls for f_ in alternatives(c_.func)]:
+        n = node_for(c)
+        if isinstance(f, ast.Call) and isinstance(f.func, ast.Name) and f.func.id == "getattr" and len(f.args) == 2 \
+                and not f.keywords:
+            nm = outer(n, f.args[1])
+            if not isinstance(nm, ast.Constant) and not (isinstance(nm, ast.Name) and nm.id in free):
+                try:             # "put_" + "block", a module-level / class-level constant
+                    v = get_folder(idx).fold(nm, fn.module, cls)
+                    if isinstance(v, str):
+                        nm = ast.Constant(value=v)
+                except Exception:
+                    pass
+            if isinstance(nm, ast.Constant) and isinstance(nm.value, str):
+                out.append(EffCall(nm.value, outer(n, f.args[0]), outer_args(n, c.args), [(fn, c, env)], outer_kws(n, c)))
+            elif isinstance(nm, ast.Name) and nm.id in free:
+                pass
+            else:
+                raise UnresolvedMethodName("%s: the method called by %s is not named by a constant string" % (
+                    short(fn), src(fn, c)))
+            continue
+        if isinstance(f, ast.Name):
+            v = outer(n, f)
+            if isinstance(v, ast.Attribute) and (f.id in env or v is not f) and attr_path(v.value) != "self" \
+                    and not isinstance(v.value, ast.Name):
+                out.append(EffCall(v.attr, v.value, outer_args(n, c.args), [(fn, c, env)], outer_kws(n, c)))
+            continue
+        if not isinstance(f, ast.Attribute):
+            continue
+        if attr_path(f.value) == "self":
+            m = cls.lookup(f.attr)
+            if m is None or m.qual == fn.qual or depth <= 0:
+                continue
+            b = bind_call_varargs(m, c)
+            if b is None:
+                continue
+            named, ex = b
+            env2 = {k_: outer(n, v_) for k_, v_ in named.items()}
+            sub = shareholder_calls(idx, cls, m, env2, outer_args(n, ex), depth - 1, nested, free)
+            for e in sub:
+                out.append(EffCall(e.meth, e.recv, e.args, [(fn, c, env)] + e.chain, e.kws))
+        else:
+            out.append(EffCall(f.attr, outer(n, f.value), outer_args(n, c.args), [(fn, c, env)], outer_kws(n, c)))
+    if nested:
+        for subfn in fn.nested.values():
+            out.extend(shareholder_calls(idx, cls, subfn, None, None, depth, nested, free | set(subfn.params)))
+    return out
+
+
 def the_call(fn, tail, pred=None, what=None):
     cs = [c for c in calls_in_func(fn, tail) if pred is None or pred(c)]
     if len(cs) != 1:
@@ -316,9 +449,46 @@ def attr_store_value(sym, path):
 def codec_share_size(idx, clsname):
     """share_size of codec.<clsname>.set_params as an AST over its parameters."""
     fn = idx.func("codec:%s.set_params" % clsname)
+    return _share_size_of(idx, fn, 3)
+
+
+def _share_size_of(idx, fn, depth):
     s = Sym(idx, fn, expand_attrs=True)
-    n, v = attr_store_value(s, "self.share_size")
-    return fn, n, s.expand(n, v)
+    stored = [q for q in fn.cfg().nodes if "self.share_size" in node_stores(q)]
+    if stored or depth <= 0 or fn.cls is None:
+        n, v = attr_store_value(s, "self.share_size")
+        return fn, n, s.expand(n, v)
+    # not stored here: stored by the set_params of a base class that this one calls (Base.set_params(self, ..) /
+    # super().set_params(..)); its value is read over this method's own parameters
+    mro = fn.cls.mro()
+    hops = []
+    for c in calls_in_func(fn, fn.name):
+        f = c.func
+        if not isinstance(f, ast.Attribute):
+            continue
+        base, args = None, None
+        if isinstance(f.value, ast.Name) and c.args and isinstance(c.args[0], ast.Name) and c.args[0].id == "self":
+            cands = [b for b in mro[1:] if b.name == f.value.id]
+            if cands:
+                base, args = cands[0], c.args[1:]
+        elif isinstance(f.value, ast.Call) and isinstance(f.value.func, ast.Name) and f.value.func.id == "super":
+            cands = [b for b in mro[1:] if fn.name in b.methods]
+            if cands:
+                base, args = cands[0], c.args
+        if base is not None and fn.name in base.methods:
+            hops.append((c, base.methods[fn.name], args))
+    if len(hops) != 1:
+        attr_store_value(s, "self.share_size")          # raises the fail-closed error
+        raise AnchorVanished("%s: self.share_size is not stored" % short(fn))
+    c, m, args = hops[0]
+    call = ast.Call(func=c.func, args=list(args), keywords=list(c.keywords))
+    bound = bind_call_args(m, call)
+    n = node_of(fn, c)
+    _m, mn, mv = _share_size_of(idx, m, depth - 1)
+    ps = first_positional_params(m)
+    if any(p_ not in bound for p_ in ps if any(isinstance(x, ast.Name) and x.id == p_ for x in ast.walk(mv))):
+        raise AnalysisError("%s: cannot bind the arguments of %s" % (short(fn), src(fn, c)))
+    return fn, n, subst_names(mv, {k_: s.expand(n, v_) for k_, v_ in bound.items()})
 
 
 # ============================================================== rule bodies
@@ -845,6 +1015,8 @@ def encoder_put_order(idx):
             return []
         seen.add(name)
         res = list(puts_of(m))
+        # put_* calls made through helper methods that are handed the method name / the bound method
+        res.extend(e.meth for e in shareholder_calls(idx, enc, m, depth=4) if len(e.chain) > 1 and e.meth.startswith("put_"))
         for nm in self_calls(m):
             res.extend(reach(nm, seen))
         return res
@@ -2448,29 +2620,44 @@ def run_sent_is_hashed(ctx, r):
     if pb is None:
         raise AnchorVanished("WriteBucketProxy.put_block")
     pbp = first_positional_params(pb)
-    puts = [(n, c) for n in bcfg.nodes for c in node_calls(n) if call_tail(c) == "put_block"]
-    r.site(sb, puts[0][1] if puts else None, "put_block(%s, %s) on self.landlords[%s]" % (sbp[1], sbp[2], sbp[0]))
+    # put_block calls of send_block: its own, or made for it by Encoder helper methods that are handed the method
+    # name / the bound method (receiver and arguments read in send_block's terms)
+    puts = [e for e in shareholder_calls(idx, enc, sb, depth=3) if e.meth == "put_block"]
+    r.site(sb, puts[0].chain[0][1] if puts else None, "put_block(%s, %s) on self.landlords[%s]" % (sbp[1], sbp[2], sbp[0]))
     if not puts:
         r.violation(sb, sb.loc(), "Encoder.send_block never calls put_block: no block reaches a bucket writer")
         return
-    good = set()
-    for (n, c) in puts:
-        recv = nf(bs.expand(n, c.func.value)) if isinstance(c.func, ast.Attribute) else "?"
+    good = {}                # (function qualname, share names there) -> (FuncInfo, {node ids of the good calls})
+    for e in puts:
+        c = e.chain[0][1]
+        recv = nf(e.recv)
         ok_r = recv in ("self.landlords[%s]" % sbp[0], "self.landlords.get(%s)" % sbp[0])
         r.require(ok_r, sb, sb.loc(c), "block of share %s is put to %s, not to the bucket writer of that share" % (sbp[0], recv))
-        b = {k_: nf(bs.expand(n, v_)) for k_, v_ in bind_call_args(pb, c).items()}
-        ok_a = len(pbp) == 2 and b.get(pbp[0]) == sbp[1] and b.get(pbp[1]) == sbp[2]
-        r.require(ok_a, sb, sb.loc(c), "send_block(%s) calls %s: the writer is not given (segment number, block) as received" % (
-            ", ".join(sbp[:3]), src(sb, c)))
+        ok_a = len(pbp) == 2 and not any(isinstance(a, ast.Starred) for a in e.args) and len(e.args) <= 2 and "**" not in e.kws
+        if ok_a:
+            b = {pbp[i]: nf(a) for i, a in enumerate(e.args)}
+            b.update({k_: nf(v_) for k_, v_ in e.kws.items()})
+            ok_a = set(b) == set(pbp) and b.get(pbp[0]) == sbp[1] and b.get(pbp[1]) == sbp[2]
+        r.require(ok_a, sb, sb.loc(c), "send_block(%s) calls %s%s: the writer is not given (segment number, block) as received" % (
+            ", ".join(sbp[:3]), src(sb, c), "" if len(e.chain) == 1 else " (put_block(%s) in %s)" % (
+                ", ".join(nf(a) for a in e.args), short(e.chain[-1][0]))))
         if ok_r and ok_a:
-            good.add(n.id)
-    if good:
-        for (t, w) in find_path_avoiding(bcfg, lambda q: q.kind == "exit", gate_node=lambda q: q.id in good,
-                                         gate_edge=lambda n_, lab: _no_writer_edge(bnorm, n_, lab, {sbp[0]}),
+            for lvl, (f_, c_, env_) in enumerate(e.chain):
+                names = frozenset([sbp[0]]) if lvl == 0 else frozenset(
+                    k_ for k_, v_ in env_.items() if not isinstance(v_, list) and nf(v_) == sbp[0])
+                try:
+                    nid = node_of(f_, c_).id
+                except AnalysisError:
+                    raise AnalysisError("%s: no CFG node for %s" % (short(f_), src(f_, c_)))
+                good.setdefault((f_.qual, names), (f_, set()))[1].add(nid)
+    for (_q, names), (f_, nids) in sorted(good.items(), key=lambda kv: kv[0][0]):
+        fnorm_ = bnorm if f_ is sb else FlowNorm(f_)
+        for (t, w) in find_path_avoiding(f_.cfg(), lambda q: q.kind == "exit", gate_node=lambda q, _s=nids: q.id in _s,
+                                         gate_edge=lambda n_, lab, _f=fnorm_, _n=names: _no_writer_edge(_f, n_, lab, set(_n)),
                                          skip_exc_edges=True):
             r.violation(sb, sb.loc(), "Encoder.send_block can return without put_block although the share may have a bucket "
-                        "writer (path: %s): the share on the server lacks this block and fails its block hash on download"
-                        % w.brief(), w)
+                        "writer (path%s: %s): the share on the server lacks this block and fails its block hash on download"
+                        % ("" if f_ is sb else " in " + short(f_), w.brief()), w)
 
 
 # ============================================ C01.14 the data reads of one upload are sequential
@@ -3561,6 +3748,159 @@ def run_servers_asked(ctx, r):
 
 
 # ====================================================================== driver
+# ------------------------------ C01.15.3, second opinion: (block, share number) pairs reordered together before zfec
+def decode_pairs_kept_together(idx):
+    """C36.3 demands that CRSDecoder.decode hands zfec the caller's two lists in the caller's order.  What the round trip
+    needs is weaker: zfec must be given each block under its own share number.  True when that is proven for the shape
+    `pairs = sorted(zip(<numbers>, <blocks>), ..)` / `list(zip(..))`, zfec given the two components of `pairs`
+    (comprehensions without filter over the same definition of `pairs`), and every other return of decode returning
+    the block component of `pairs` on paths on which the number component was found equal to list(range(k)) - the k
+    primary blocks in share-number order, which is what zfec returns for them.  False = not proven (the verdict of
+    C36.3 stands)."""
+    import importlib
+    c36 = importlib.import_module("sa.rules.C36")
+    fn = idx.func(c36.DEC + ".decode")
+    ps = first_positional_params(fn)
+    if len(ps) != 2:
+        return False
+    sym = Sym(idx, fn)
+    cfg, fnorm = sym.cfg, sym.fnorm
+    rt = c36.the_route(idx, fn, "self.decoder.decode")
+    c, zargs = rt.call, rt.zargs
+    if len(zargs) != 2:
+        return False
+    n = node_of(fn, c)
+
+    def udef(node, e):
+        while isinstance(e, ast.Name):
+            ds = sym.rd.get(node.id, {}).get(e.id)
+            if not ds or len(ds) != 1 or C.PARAM_DEF in ds:
+                break
+            dn = cfg.nodes[next(iter(ds))]
+            v = fnorm._def_value(dn, e.id)
+            if v is None:
+                break
+            node, e = dn, v
+        return node, e
+
+    def component(node, e):
+        """(name of the pair list, its reaching definitions, 0|1) for [x for (x, _) in P] / [p[i] for p in P]"""
+        node, e = udef(node, e)
+        if not (isinstance(e, ast.ListComp) and len(e.generators) == 1):
+            return None
+        g = e.generators[0]
+        if g.ifs or g.is_async or not isinstance(g.iter, ast.Name):
+            return None
+        i = None
+        if isinstance(g.target, ast.Tuple) and len(g.target.elts) == 2 and all(isinstance(t, ast.Name) for t in g.target.elts) \
+                and isinstance(e.elt, ast.Name):
+            names = [t.id for t in g.target.elts]
+            if names[0] != names[1] and e.elt.id in names:
+                i = names.index(e.elt.id)
+        elif isinstance(g.target, ast.Name) and isinstance(e.elt, ast.Subscript) and isinstance(e.elt.value, ast.Name) \
+                and e.elt.value.id == g.target.id and isinstance(e.elt.slice, ast.Constant) and e.elt.slice.value in (0, 1) \
+                and type(e.elt.slice.value) is int:
+            i = e.elt.slice.value
+        defs = sym.rd.get(node.id, {}).get(g.iter.id)
+        if i is None or not defs or len(defs) != 1 or C.PARAM_DEF in defs:
+            return None
+        return (g.iter.id, frozenset(defs), i)
+
+    cb, ci_ = component(n, zargs[0]), component(n, zargs[1])
+    if cb is None or ci_ is None or cb[:2] != ci_[:2] or cb[2] == ci_[2]:
+        return False
+    P, defs, bi = cb
+    ii = ci_[2]
+    dn = cfg.nodes[next(iter(defs))]
+    v = fnorm._def_value(dn, P)
+    if isinstance(v, ast.Call) and isinstance(v.func, ast.Name) and v.func.id in ("sorted", "list") and len(v.args) == 1 \
+            and (v.func.id == "sorted" or not v.keywords):
+        v = v.args[0]
+    else:
+        return False
+    if not (isinstance(v, ast.Call) and isinstance(v.func, ast.Name) and v.func.id == "zip" and len(v.args) == 2 and not v.keywords):
+        return False
+    if not (c36.order_preserving(udef(dn, v.args[bi])[1], ps[0]) and c36.order_preserving(udef(dn, v.args[ii])[1], ps[1])):
+        return False
+    # nothing else touches the pair list
+    for q in cfg.nodes:
+        for x in node_exprs(q):
+            for y in own_nodes(x, into_lambda=True):
+                if isinstance(y, ast.Attribute) and isinstance(y.value, ast.Name) and y.value.id == P:
+                    return False
+
+    def primary_ids(node, e):
+        """e is list(range(k)) - spelled out, or an attribute every store of which is list(range(<the k stored as
+        self.required_shares by the same method>))."""
+        node, e = udef(node, e)
+
+        def range_of(x):
+            if isinstance(x, ast.Call) and isinstance(x.func, ast.Name) and x.func.id == "list" and len(x.args) == 1 and not x.keywords:
+                x = x.args[0]
+                if isinstance(x, ast.Call) and isinstance(x.func, ast.Name) and x.func.id == "range" and len(x.args) == 1 and not x.keywords:
+                    return x.args[0]
+            return None
+        k = range_of(e)
+        if k is not None:
+            return nf(sym.expand(node, k)) == "self.required_shares"
+        path = attr_path(e)
+        if not (path and path.startswith("self.") and path.count(".") == 1):
+            return False
+        attr = path.split(".")[1]
+        cg = get_callgraph(idx)
+        fam = {m.qual for c_ in fn.cls.mro() for m in c_.methods.values()}
+        setters = set()
+        for (f_, _tgt) in cg.attr_stores(attr):
+            if f_.qual not in fam:
+                return False
+            sm = Sym(idx, f_)
+            st = sm.attr_stores().get(path)
+            kk = range_of(st[1]) if st is not None else None
+            ks = sm.attr_stores().get("self.required_shares")
+            if kk is None or ks is None or not isinstance(ks[1], ast.Name) or nf(sm.expand(st[0], kk)) != nf(sm.expand(ks[0], ks[1])) \
+                    or nf(sm.expand(ks[0], ks[1])) not in f_.params:
+                return False
+            setters.add(f_.qual)
+        if not setters:
+            return False
+        for (f_, _tgt) in cg.attr_stores("required_shares"):
+            if f_.qual in fam and f_.qual not in setters:
+                return False
+        for cs in cg.calls_named("append") + cg.calls_named("extend") + cg.calls_named("pop") + cg.calls_named("remove") \
+                + cg.calls_named("insert") + cg.calls_named("sort") + cg.calls_named("reverse") + cg.calls_named("clear"):
+            if isinstance(cs.call.func, ast.Attribute) and isinstance(cs.call.func.value, ast.Attribute) \
+                    and cs.call.func.value.attr == attr:
+                return False
+        return True
+
+    def gate(q, lab):
+        if q.kind != "test" or not isinstance(lab, tuple) or not isinstance(q.ast, ast.Compare) or len(q.ast.ops) != 1:
+            return False
+        if not ((isinstance(q.ast.ops[0], ast.Eq) and lab[0] == "T") or (isinstance(q.ast.ops[0], ast.NotEq) and lab[0] == "F")):
+            return False
+        a, b = q.ast.left, q.ast.comparators[0]
+        for x, y in ((a, b), (b, a)):
+            if component(q, x) == (P, defs, ii) and primary_ids(q, y):
+                return True
+        return False
+
+    zcall = ast.dump(sym.expand(n, c))
+    for t in cfg.find(is_return):
+        if t.ast.value is None:
+            return False
+        v = sym.expand(t, t.ast.value)
+        while isinstance(v, ast.Await):
+            v = v.value
+        if isinstance(v, ast.Call) and ast.dump(v) == zcall:
+            continue
+        if component(t, t.ast.value) != (P, defs, bi):
+            return False
+        if find_path_avoiding(cfg, lambda q, _t=t: q is _t, gate_edge=gate):
+            return False
+    return True
+
+
+
 def run(ctx: Context):
     idx = ctx.idx
     with ctx.rule("C01.1", "R6", "encoder (_got_all_encoding_parameters + CRSEncoder.set_params) and downloader "
@@ -3639,6 +3979,15 @@ def run(ctx: Context):
     # C01.15.3: CRSDecoder.decode returns what zfec made of the blocks and share numbers, handed over pairwise in the
     # caller's order (rule shared with C36): zfec, not the order of arrival, decides which piece of the segment is which
     ctx.include("C36", ["C36.3"], "C01.15")
+    # C36.3 insists on the caller's order; for the round trip it is enough that every block goes to zfec under its own
+    # share number.  Where C36.3 objects only to the order, a proof that the pairs are kept together replaces its verdict
+    # (its two length preconditions stay as they are).
+    for r_ in ctx.rules:
+        if r_.id == "C01.15.3" and r_.violations:
+            order_only = [v_ for v_ in r_.violations if "not passed in the caller's order" in v_.msg
+                          or v_.msg.startswith("decode returns ")]
+            if order_only and decode_pairs_kept_together(ctx.idx):
+                r_.violations = [v_ for v_ in r_.violations if v_ not in order_only]
 
     with ctx.rule("C01.16", "R1/R6", "DownloadNode._decode_blocks returns nothing but the Deferred of codec.decode(blocks, "
                   "share numbers), and the first callback on it joins the decoded pieces in the order the codec returned "
